@@ -43,9 +43,24 @@ InjSeqs(S, k) == {s \in [1..k -> S] : \A a, b \in 1..k : a # b => s[a] # s[b]}
 Observable(s, refSensors) == \A k \in s : \E c \in refSensors : c \notin ZeroAt[k]
 Visible(s, sensors) == \A k \in s : \E c \in sensors : c \notin ZeroAt[k]
 
-(* smallest block-row count the properties admit: observability index + 1 on the output side,     *)
-(* enough block columns on the reference side                                                     *)
-MinBr(m, l, r) == Max(CeilDiv(2 * m, l), CeilDiv(2 * m, r)) + 1
+(* Observability index of the modal model seen at a list of sensors.  Sensor c sees 2 * Vis(c) eigenvalues (the     *)
+(* conjugate pairs of the modes whose shape does not vanish there) and contributes min(k, 2 Vis(c)) independent    *)
+(* rows to the k-block observability matrix (a Vandermonde block in those eigenvalues), so for generic shape       *)
+(* values the rank after k blocks is the sum of those terms, capped at 2m.                                        *)
+Vis(s, c) == Cardinality({k \in s : c \notin ZeroAt[k]})
+Min2(a, b) == IF a <= b THEN a ELSE b
+RankAfter(k, s, sensors) ==
+    LET F[i \in 0..Len(sensors)] == IF i = 0 THEN 0 ELSE F[i - 1] + Min2(k, 2 * Vis(s, sensors[i]))
+    IN F[Len(sensors)]
+ObsIndex(s, sensors) ==
+    LET n == 2 * Cardinality(s)
+    IN IF \E k \in 1..n : RankAfter(k, s, sensors) >= n
+       THEN CHOOSE k \in 1..n : RankAfter(k, s, sensors) >= n /\ \A j \in 1..(k - 1) : RankAfter(j, s, sensors) < n
+       ELSE n + 1
+(* smallest block-row count the properties admit: observability index + 1 on the output side, and enough block   *)
+(* columns for the reference sensors to span the modal space on the other side                                    *)
+MinBrFor(s, sensors, refSensors) == Max(ObsIndex(s, sensors) + 1, ObsIndex(s, refSensors))
+MinBr(m, l, r) == Max(CeilDiv(2 * m, l), CeilDiv(2 * m, r)) + 1      \* generic shapes (no vanishing components)
 
 SingleLayouts ==
     {<<[chan |-> [c \in 1..NSensors |-> c], ref |-> r]>> : r \in UNION {InjSeqs(1..NSensors, k) : k \in RefSizes}}
@@ -57,12 +72,12 @@ Init ==
        THEN /\ lays \in SingleLayouts
             /\ Observable(sys, Range(RefSensors(lays[1])))
             /\ \E e \in BrExtra, mt \in Methods, rt \in Routines :
-                 par = [br |-> MinBr(Cardinality(sys), NSensors, Len(lays[1].ref)) + e, method |-> mt, routine |-> rt, gain |-> 0]
+                 par = [br |-> MinBrFor(sys, lays[1].chan, RefSensors(lays[1])) + e, method |-> mt, routine |-> rt, gain |-> 0]
        ELSE /\ \E cnt \in MultiCounts : lays \in AllLayouts(MultiNRef, cnt)
             /\ Observable(sys, 1..MultiNRef)
             /\ \A i \in DOMAIN lays : Visible(sys, Range(lays[i].chan))
             /\ \E e \in BrExtra, mt \in Methods, g \in GainPats :
-                 par = [br |-> MinBr(Cardinality(sys), MultiNRef + 0, MultiNRef) + e, method |-> mt, routine |-> "fast", gain |-> g]
+                 par = [br |-> MinBrFor(sys, RefSensors(lays[1]), RefSensors(lays[1])) + e, method |-> mt, routine |-> "fast", gain |-> g]
 
 (* the prediction: which catalogue modes sit in which order column, how often *)
 Identify ==
@@ -80,8 +95,10 @@ Spec == Init /\ [][Next]_vars
 
 Done == out # <<>>
 ExactAtTrueOrder == Done => (out.order = 2 * Cardinality(sys) /\ \A k \in sys : out.at_order[k] = 2)
-BlockRowsAdmissible == par.br >= MinBr(Cardinality(sys), Len(lays[1].chan), Len(lays[1].ref))
-                       \/ Pipeline \in {"multi", "poser"}
+BlockRowsAdmissible ==
+    Pipeline \in {"single", "real"} =>
+        /\ par.br >= ObsIndex(sys, lays[1].chan) + 1                                   \* observability index + 1
+        /\ RankAfter(par.br + 1, sys, RefSensors(lays[1])) >= 2 * Cardinality(sys)     \* the reference side spans the modal space
 ObservablePrecondition == Observable(sys, Range(RefSensors(lays[1])))
 GlobalShapeOrder == Done =>
     /\ \A j \in DOMAIN lays[1].ref : out.rows[j] = RefSensors(lays[1])[j]
